@@ -116,13 +116,13 @@ def run(F, R, tier):
 
     # ---------------- C06-b ------------------------------------------------
     fold = F.body("packages::resolve_version")
-    asg = [n for n in fold["_nodes"] if n["k"] == "Assign" and peel(n["l"]).get("name") == "maybe_best_version"]
+    asg = [n for n in fold["_nodes"] if n["k"] == "Assign" and peel(n["l"]).get("res") == "local" and tyc(F, n["l"], "Option<&deno_semver::Version>")]
     R.floor("C06-b best-version updates", len(asg), 1)
     for a in asg:
         g = guards_at(F, a)
         R.ob("C06-b", "a candidate must satisfy the requirement", any(x.kind == "cond" and x.pol and (x.node.get("fn") or "").endswith("VersionReq::matches") for x in g), "best-version update not guarded by version_req.matches(version)", where(a))
         R.ob("C06-b", "a candidate must pass the date filter", any(x.kind == "cond" and x.pol and callee_matches(x.node, ["packages::matches_newest_dependency_date"]) for x in g), "best-version update not guarded by matches_newest_dependency_date", where(a))
-        R.ob("C06-b", "the assigned version is the candidate under test", peel_value(peel(a["r"])["args"][0]).get("name") == "version" if ctor_of(peel(a["r"])) == "std::option::Option::Some" else False, "assigned %s" % expr_text(a["r"]), where(a))
+        R.ob("C06-b", "the assigned version is the candidate under test", (peel_value(peel(a["r"])["args"][0]).get("lid") in {b_["lid"] for lp_ in fold["_nodes"] if lp_["k"] == "For" for b_ in pat_bindings(lp_["pat"])}) if ctor_of(peel(a["r"])) == "std::option::Option::Some" else False, "assigned %s" % expr_text(a["r"]), where(a))
     md = F.body("packages::matches_newest_dependency_date")
     vals = return_values(F, md)
     ok = len(vals) == 1 and vals[0].get("k") == "MethodCall" and vals[0]["name"] == "unwrap_or" and peel(vals[0]["args"][0]).get("v") is True
